@@ -6,8 +6,7 @@ HARNESS = "c05"
 DRIVER = "c05"
 PROPS_MODULE = "OxyModel.Props.C05"
 AUDIT = "OxyModel/Audit/C05.lean"
-THEOREMS = ["C05.C05_tripped_shields", "C05.C05_tripped_shields_all", "C05.C05_standby_passes",
-            "C05.C05_standby_until_trip", "C05.C05_edges", "C05.C05_tripped_until"]
+THEOREMS = ["C05.C05_tripped_shields", "C05.C05_tripped_shields_all", "C05.C05_standby_passes", "C05.C05_standby_until_trip", "C05.C05_edges", "C05.C05_tripped_until"]
 RACE = True
 JOBS = 8
 RULE = ("scenario = a real cbreaker.New(next, <generated condition>, Fallback/Recovery/CheckPeriod from 1 ms..1 h incl. powers of two and 0) "
@@ -19,8 +18,7 @@ RULE = ("scenario = a real cbreaker.New(next, <generated condition>, Fallback/Re
         "non-trivial = at least one observed trip, a request arriving inside the shielded interval, and a request admitted before the "
         "trip completing after it")
 ASSUMPTIONS = ["time stamps never decrease (frozen clock only advances); wall-clock steps backwards are not modelled",
-               "activateFallback / checkAndSet are atomic steps (CircuitBreaker.m held: C09 lock discipline); the harness serialises steps, "
-               "overlap = interleaving of arrive/complete steps; thorough tier builds with -race",
+               "the model's atomic steps are arrive (activateFallback under CircuitBreaker.m), record (metrics.Record, under RTMetrics' own locks, NOT under c.m) and check (checkAndSet under c.m); the theorems hold for every interleaving of these steps (C09 lock facts: each is atomic). The correspondence run realises: whole completions (record;check back to back), arrivals parked inside the lock, and through `finish2` the schedule Record_1 Record_2 <decision> checkAndSet checkAndSet (both responses recorded before either check); other finer schedules (e.g. the clock advancing between a request's Record and its checkAndSet) are not exercised and rest on the theorems plus the C09 lock discipline; thorough tier builds with -race",
                "durations are non-negative and fit in int64 ns; String() is read only at quiescent points"]
 TRUSTED = ["cbreaker state is observed through CircuitBreaker.String() (state, until) after every op"]
 MANIFEST = {
